@@ -8,13 +8,17 @@
 (*    at least one client with examples).                                  *)
 (* Cohorts, domain counts and cluster assignments are nondeterministic     *)
 (* inputs of each round.  Serves C17.                                      *)
+(* Between rounds the personalised models may be EVALUATED on any set of   *)
+(* clients (APFL's evaluation function reads the table, with a default for *)
+(* clients it does not hold): evaluation changes nothing.                  *)
 (* Deviations: SlideOldest (FALSE: the newest entry is overwritten instead *)
-(* of the oldest dropped), StoreParticipantsOnly, SkipEmptyClusters.       *)
+(* of the oldest dropped), StoreParticipantsOnly, SkipEmptyClusters,       *)
+(* EvalReadOnly (FALSE: evaluating a client stores its default state).     *)
 (***************************************************************************)
 EXTENDS Integers, Sequences, FiniteSets, TLC
 
 CONSTANTS NumDomains, W, NumClients, NumClusters, MaxRounds, MaxCount,
-          SlideOldest, StoreParticipantsOnly, SkipEmptyClusters
+          SlideOldest, StoreParticipantsOnly, SkipEmptyClusters, EvalReadOnly
 
 Clients == 1..NumClients
 Clusters == 1..NumClusters
@@ -40,8 +44,14 @@ Round(cohort, counts, assign, busy) ==
   /\ LET touched == IF SkipEmptyClusters THEN {assign[c] : c \in busy} ELSE Clusters
      IN /\ version' = [k \in Clusters |-> IF k \in touched THEN version[k] + 1 ELSE version[k]]
         /\ lastTouched' = {assign[c] : c \in busy}
-Next == \E cohort \in SUBSET Clients : \E counts \in CountVec : \E assign \in [cohort -> Clusters] : \E busy \in SUBSET cohort :
-           Round(cohort, counts, assign, busy)
+\* evaluation of the personalised models of `who` between two rounds
+Evaluate(who) ==
+  /\ round < MaxRounds
+  /\ stored' = (IF EvalReadOnly THEN stored ELSE stored \cup who)
+  /\ UNCHANGED <<round, window, counts_hist, participated, version, lastTouched>>
+Next == \/ \E cohort \in SUBSET Clients : \E counts \in CountVec : \E assign \in [cohort -> Clusters] : \E busy \in SUBSET cohort :
+             Round(cohort, counts, assign, busy)
+        \/ \E who \in SUBSET Clients : Evaluate(who)
 Spec == Init /\ [][Next]_vars
 
 \* the window has constant length and holds the most recent per-domain counts (initial entries until W rounds passed)
